@@ -694,11 +694,13 @@ room waits in the session's delay queue and is first transmitted when an outcome
 (`coap_session_connected` drains the delay queue — from the ACK / RST branch of `coap_dispatch` or from the give-up
 branch of `coap_retransmit` in the middle of the due loop); and submissions / RSTs may come at any instant.
 
-Scope `RunG` (threaded along the run, decidable): events `setNow` (monotone), `prepare`, `submit` of a CON — with or
-without NSTART room — whose timeout `T = coap_calc_timeout(…, r)` is positive and inside the no-wrap range D7
-(`T << MAX_RETRANSMIT` < 2^64), `rxAck`, `rxRst`; any number of sessions (`SessOk`: established, socket open,
-1 ≤ NSTART, MAX_RETRANSMIT < 256, nothing delayed initially) sharing the one send queue.  This is the alphabet of the
-property; NON messages, separate responses (cancel by token), invalid codes and session failures belong to C08. -/
+Scope `RunG` (threaded along the run, decidable): EVERY event of the model except the two that take a session out of
+the established state: `setNow` (monotone), `prepare`, `submit` of a NON or of a CON — with or without NSTART room —
+whose timeout `T = coap_calc_timeout(…, r)` is positive and inside the no-wrap range D7 (`T << MAX_RETRANSMIT` < 2^64),
+`rxAck`, `rxRst`, `rxNon` (a response: `coap_cancel_all_messages` by token), `rxBad` (invalid code), `connect`; any
+number of sessions (`SessOk`: established, socket open, 1 ≤ NSTART, MAX_RETRANSMIT < 256, nothing delayed initially)
+sharing the one send queue.  Not in `RunG`: `hold` (session not established — retransmissions are then parked in the
+delay queue, off schedule by design) and `disconnect` (session failure, C08).  "The C06 alphabet" below = `RunG`. -/
 /-- witness run with the NSTART gate: ONE session with NSTART 1; message 2 is submitted while message 1 is in flight
 (delayed), message 1 runs out of retransmissions (MAX_RETRANSMIT 1), the give-up inside the due loop releases the
 slot and message 2 is transmitted at that instant; it is retransmitted on its own schedule and then ACKed -/
@@ -708,24 +710,24 @@ def gevs : List Msg.Ev :=
 
 open Coap.Sim Coap.Sched in
 /-- **m_schedule_all** (`retransmit_schedule` on M, full): in EVERY punctual run over the C06 alphabet, any number of
-messages and sessions sharing the send queue, NSTART-delayed messages included: every transmission `tx t s mid k con`
-M ever emits is a Confirmable, belongs to a `coap_send` of (s, mid) in the run with PRNG byte `r`, the first
+messages and sessions sharing the send queue, NSTART-delayed messages included: every transmission `tx t s mid k true`
+of a Confirmable M ever emits belongs to a `coap_send` of (s, mid) in the run with PRNG byte `r`, the first
 transmission `tx t0 s mid 0` of that message is in the outputs, `t = t0 + (2^k − 1)·T` with
 `T = coap_calc_timeout(parameters of s, r)` — the one value drawn at that submission, used for all its
 retransmissions —, and `k ≤ MAX_RETRANSMIT`. -/
 theorem m_schedule_all (now0 : Nat) (sess : List Msg.Sess) (evs : List Msg.Ev)
     (hs : ∀ se ∈ sess, SessOk se) (hin : RunG (Msg.init now0 sess) evs) (hpu : Punctual (Msg.init now0 sess) evs) :
-    ∀ t s mid k con, Msg.Out.tx t s mid k con ∈ (Msg.run (Msg.init now0 sess) evs).out →
-      con = true ∧ ∃ t0 r, Msg.Ev.submit s true mid r ∈ evs ∧
+    ∀ t s mid k, Msg.Out.tx t s mid k true ∈ (Msg.run (Msg.init now0 sess) evs).out →
+      ∃ t0 r, Msg.Ev.submit s true mid r ∈ evs ∧
         Msg.Out.tx t0 s mid 0 true ∈ (Msg.run (Msg.init now0 sess) evs).out ∧
         t = sched t0 (calcTimeout (parOf sess s).atI (parOf sess s).atF (parOf sess s).arfI (parOf sess s).arfF r) k ∧
         k ≤ (parOf sess s).maxRtx := by
-  intro t s mid k con hmem
+  intro t s mid k hmem
   have hi := run_finv (pu := True) (P := fun s mid T => ∃ r, Msg.Ev.submit s true mid r ∈ evs ∧
       T = calcTimeout (parOf sess s).atI (parOf sess s).atF (parOf sess s).arfI (parOf sess s).arfF r)
     (gpar_of sess hs) evs _ (finv_init _ _ now0 sess hs) hin (fun _ => hpu) (fun s mid r h => ⟨r, h, rfl⟩)
-  obtain ⟨hc, t0, T, h0, hsch, hk, r, hsub, hT⟩ := (hi.outs trivial).1 t s mid k con hmem
-  exact ⟨hc, t0, r, hsub, h0, by rw [← hT]; exact hsch, hk⟩
+  obtain ⟨t0, T, h0, hsch, hk, r, hsub, hT⟩ := (hi.outs trivial).1 t s mid k hmem
+  exact ⟨t0, r, hsub, h0, by rw [← hT]; exact hsch, hk⟩
 
 open Coap.Sim Coap.Sched in
 /-- **m_pending_on_schedule** (`pending_on_schedule` on M, full): … and every node in the send queue is armed for
@@ -827,18 +829,21 @@ open Coap.Sim Coap.Sched in
 /-- **m_single_outcome** (`single_outcome` on M, full — conservation law for EVERY run over the C06 alphabet, punctual
 or late, NSTART-delayed messages included, any number of messages and sessions): for every (session, mid)
 
-  accepted `coap_send` calls  =  outcome NACK-handler calls (TOO_MANY_RETRIES or RST, carrying the sent PDU)
-                               + silent completions (an arriving ACK that finds the message in the send queue)
+  accepted `coap_send` calls of a CON  =  outcome NACK-handler calls (TOO_MANY_RETRIES or RST, carrying the sent PDU)
+                               + completions without such a NACK (`remC`: an arriving ACK that finds the message in the
+                                 send queue — the silent completion —; in the wider alphabet also an invalid-code ACK
+                                 that finds it, and a response carrying its token: `coap_cancel_all_messages`)
                                + nodes still in the send queue + nodes still in the session's delay queue.
 
 (`coap_send` refuses a Confirmable only when the same message id is already waiting in the delay queue.)  So a
 message id accepted once is — at every moment — exactly one of: waiting for NSTART room, pending, completed by its
-ACK, or reported by exactly ONE NACK; it is never concluded twice and never lost. -/
+ACK (or cancelled by the response / invalid code), or reported by exactly ONE NACK; it is never concluded twice and
+never lost.  In runs with only ACK / RST arrivals `remC` counts exactly the ACKs that found the message. -/
 theorem m_single_outcome (now0 : Nat) (sess : List Msg.Sess) (evs : List Msg.Ev)
     (hs : ∀ se ∈ sess, SessOk se) (hin : RunG (Msg.init now0 sess) evs) (s mid : Nat) :
     let l := Msg.run (Msg.init now0 sess) evs
     accC s mid (Msg.init now0 sess) evs =
-      nackC s mid l.out + ackC s mid (Msg.init now0 sess) evs + pendC s mid l.q.nodes +
+      nackC s mid l.out + remC s mid (Msg.init now0 sess) evs + pendC s mid l.q.nodes +
         midC mid (l.getS s).delayq := by
   intro l
   have h := run_conserve_M (P := fun _ _ _ => True) (gpar_of sess hs) s mid evs _
@@ -881,7 +886,7 @@ delay queue), silently completed by its ACK at the end; after its give-up (7 eve
 twice and is still sent twice at the end -/
 example : accC 0 1 (Msg.init 0 [{ maxRtx := 1 }]) gevs = 1 ∧
     nackC 0 1 (Msg.run (Msg.init 0 [{ maxRtx := 1 }]) gevs).out = 1 ∧
-    accC 0 2 (Msg.init 0 [{ maxRtx := 1 }]) gevs = 1 ∧ ackC 0 2 (Msg.init 0 [{ maxRtx := 1 }]) gevs = 1 ∧
+    accC 0 2 (Msg.init 0 [{ maxRtx := 1 }]) gevs = 1 ∧ remC 0 2 (Msg.init 0 [{ maxRtx := 1 }]) gevs = 1 ∧
     midC 2 ((Msg.run (Msg.init 0 [{ maxRtx := 1 }]) (gevs.take 3)).getS 0).delayq = 1 ∧
     RunG (Msg.init 0 [{ maxRtx := 1 }]) (gevs.take 7 ++ gevs.drop 7) ∧
     pendC 0 1 (Msg.run (Msg.init 0 [{ maxRtx := 1 }]) (gevs.take 7)).q.nodes = 0 ∧
@@ -950,6 +955,22 @@ transmitted 2 = (1+1)·1 times; message (0,2) 2 times -/
 example : txC 0 1 (Msg.run (Msg.init 0 [{ maxRtx := 1 }]) gevs).out = 2 ∧
     txC 0 2 (Msg.run (Msg.init 0 [{ maxRtx := 1 }]) gevs).out = 2 ∧
     accC 0 1 (Msg.init 0 [{ maxRtx := 1 }]) gevs = 1 := by decide
+
+/-- witness run over the wider alphabet: a NON in between, message 2 delayed by the NSTART gate, a response carrying
+token 1 cancels message 1 (which lets message 2 in at 500), message 2 is retransmitted at 3500 = 500 + 3000, a
+`coap_session_connected`, then an invalid-code ACK ends message 2 (NACK "bad response") -/
+def xevs : List Msg.Ev :=
+  [.submit 0 true 1 0, .submit 0 false 5 0, .submit 0 true 2 255, .setNow 500, .rxNon 0 77 1, .setNow 3500, .prepare,
+   .connect 0, .rxBad 0 2, .setNow 9000, .prepare]
+
+open Coap.Sim Coap.Sched in
+/-- non-vacuity of the section (7) theorems on the wider alphabet: the run is in `RunG` and punctual; both Confirmables
+are accepted once and concluded once without a TOO_MANY_RETRIES / RST NACK; the NON is not counted -/
+example : RunG (Msg.init 0 [{}]) xevs ∧ Punctual (Msg.init 0 [{}]) xevs ∧ ClockOk (Msg.init 0 [{}]) xevs ∧
+    accC 0 1 (Msg.init 0 [{}]) xevs = 1 ∧ remC 0 1 (Msg.init 0 [{}]) xevs = 1 ∧
+    accC 0 2 (Msg.init 0 [{}]) xevs = 1 ∧ remC 0 2 (Msg.init 0 [{}]) xevs = 1 ∧
+    accC 0 5 (Msg.init 0 [{}]) xevs = 0 ∧ txC 0 2 (Msg.run (Msg.init 0 [{}]) xevs).out = 2 ∧
+    Msg.Out.tx 3500 0 2 1 true ∈ (Msg.run (Msg.init 0 [{}]) xevs).out ∧ sched 500 3000 1 = 3500 := by decide
 
 /-! ### where punctuality comes from: sleeping no longer than the returned wait -/
 open Coap.Sim Coap.Sched in
